@@ -1352,6 +1352,18 @@ fn saturate_step(w: &World, knobs: &Knobs, actor: &Actor, rng: &mut Rng, l: &Led
 }
 
 fn plan_lp(w: &World, knobs: &Knobs, actor: &mut Actor, l: &Ledger) -> Vec<(Tx, String)> {
+    // one plan in twenty: the first v2 instruction built describes its remaining accounts with one more, zero-length slice
+    let arm = {
+        let rng = &mut actor.rng;
+        if rng.chance(1, 20) { Some(rng.below(256) as u8) } else { None }
+    };
+    ix::RAI_FAULT.with(|c| c.set(arm));
+    let flow = plan_lp_inner(w, knobs, actor, l);
+    ix::RAI_FAULT.with(|c| c.set(None));
+    flow
+}
+
+fn plan_lp_inner(w: &World, knobs: &Knobs, actor: &mut Actor, l: &Ledger) -> Vec<(Tx, String)> {
     let mine = my_positions(l, &actor.wallet);
     let rng = &mut actor.rng.clone();
     let mut flow: Vec<(Tx, String)> = Vec::new();
